@@ -657,6 +657,122 @@ else:
     return out
 
 
+def mirror_facts(src, xsrc):
+    """C01: how each role builds its ChildSa, what the negotiation messages carry, how Xfrm.create_child_sa wires
+    keys / selectors / SPIs / addresses into the two kernel SAs, and the key-derivation arguments on both roles."""
+    out = {}
+
+    def kwargs_of(call):
+        return {k.arg: ast.unparse(k.value) for k in call.keywords}
+
+    def find_call(fn, pred):
+        for n in ast.walk(fn):
+            if isinstance(n, ast.Call) and pred(n):
+                return n
+        src.fail(fn, 'expected call not found')
+    # responder ChildSa(...)
+    fn = src.func('IkeSa._process_create_child_sa_negotiation_req')
+    c = find_call(fn, lambda n: dotted_name(n.func) == 'ChildSa')
+    sym = {'chosen_child_proposal.spi': 'S_REQ_SPI', 'os.urandom(4)': 'S_FRESH', 'chosen_child_proposal': 'S_CHOSEN_PROP',
+           'chosen_tsr': 'S_CHOSEN_TSR', 'chosen_tsi': 'S_CHOSEN_TSI', 'requested_mode': 'S_REQ_MODE',
+           'ipsec_conf.lifetime': 'S_CONF_LIFE', 'ipsec_conf.proposal': 'S_CONF_PROP'}
+    kw = kwargs_of(c)
+    fields = ['inbound_spi', 'outbound_spi', 'proposal', 'tsi', 'tsr', 'mode']
+    for f in fields:
+        if kw.get(f) not in sym:
+            src.fail(c, f'responder ChildSa: {f}={kw.get(f)!r} outside the recognised sources')
+    out['resp_child'] = [(f, sym[kw[f]]) for f in fields]
+    t = ast.unparse(fn)
+    for frag in ('chosen_child_proposal.spi = child_sa.inbound_spi', 'response_payloads.append(PayloadSA([chosen_child_proposal]))',
+                 'response_payloads.append(PayloadTSi([chosen_tsi]))', 'response_payloads.append(PayloadTSr([chosen_tsr]))'):
+        if frag not in t:
+            src.fail(fn, f'responder: response construction changed ({frag})')
+    # request construction
+    fn = src.func('IkeSa._generate_child_sa_negotiation_req')
+    t = ast.unparse(fn)
+    for frag in ('result.append(PayloadTSi(child_sa.tsi))', 'result.append(PayloadTSr(child_sa.tsr))',
+                 'child_sa.proposal.spi = child_sa.inbound_spi', 'result.append(PayloadSA([child_sa.proposal]))'):
+        if frag not in t:
+            src.fail(fn, f'initiator: request construction changed ({frag})')
+    # initiator _replace(...)
+    fn = src.func('IkeSa._process_create_child_sa_negotiation_res')
+    c = find_call(fn, lambda n: dotted_name(n.func) == 'self.creating_child_sa._replace')
+    t = ast.unparse(fn)
+    for frag in ('chosen_child_proposal = response_payload_sa.proposals[0]',
+                 'chosen_tsi = response_payload_tsi.traffic_selectors[0]',
+                 'chosen_tsr = response_payload_tsr.traffic_selectors[0]',
+                 'if self.creating_child_sa.mode != response_mode:'):
+        if frag not in t:
+            src.fail(fn, f'initiator: response handling changed ({frag})')
+    sym_i = {'chosen_child_proposal.spi': 'S_RES_SPI', 'chosen_child_proposal': 'S_RES_PROP', 'chosen_tsi': 'S_RES_TSI',
+             'chosen_tsr': 'S_RES_TSR'}
+    kw = kwargs_of(c)
+    if set(kw) != {'outbound_spi', 'proposal', 'tsi', 'tsr'} or any(v not in sym_i for v in kw.values()):
+        src.fail(c, f'initiator _replace changed: {kw}')
+    out['init_replace'] = [(f, sym_i[v]) for f, v in kw.items()]
+    # Xfrm.create_child_sa
+    fn = xsrc.func('Xfrm.create_child_sa')
+    t = ast.unparse(fn)
+    want = [
+        'src_selector = child_sa.tsi.get_network()', 'dst_selector = child_sa.tsr.get_network()',
+        'src_port = child_sa.tsi.get_port()', 'dst_port = child_sa.tsr.get_port()', 'ip_proto = child_sa.tsi.ip_proto',
+    ]
+    for frag in want:
+        if frag not in t:
+            xsrc.fail(fn, f'create_child_sa: {frag} changed')
+    swap = [n for n in ast.walk(fn) if isinstance(n, ast.If) and ast.unparse(n.test) == 'is_initiator']
+    if len(swap) != 1:
+        xsrc.fail(fn, 'create_child_sa: key orientation test not found')
+    names = ['sk_ei', 'sk_er', 'sk_ai', 'sk_ar']
+
+    def assigned(stmts):
+        a = stmts[0]
+        if len(stmts) != 1 or not isinstance(a, ast.Assign) or ast.unparse(a.targets[0]) != '(sk_ei, sk_er, sk_ai, sk_ar)':
+            xsrc.fail(swap[0], 'create_child_sa: key orientation assignment changed')
+        vals = [ast.unparse(e) for e in a.value.elts]
+        for v in vals:
+            if not v.startswith('keyring.') or v[8:] not in names:
+                xsrc.fail(a, 'create_child_sa: key orientation assignment changed')
+        return [v[8:] for v in vals]
+    out['keys_init'] = assigned(swap[0].body)
+    out['keys_resp'] = assigned(swap[0].orelse)
+    calls = [n for n in ast.walk(fn) if isinstance(n, ast.Call) and dotted_name(n.func) == 'cls.create_sa']
+    calls.sort(key=lambda n: n.lineno)
+    if len(calls) != 2:
+        xsrc.fail(fn, 'create_child_sa: expected two create_sa calls')
+    params = [a.arg for a in xsrc.func('Xfrm.create_sa').args.args][1:]
+    argsym = {'src_selector': 'A_SRC_SEL', 'dst_selector': 'A_DST_SEL', 'src_port': 'A_SRC_PORT', 'dst_port': 'A_DST_PORT',
+              'child_sa.outbound_spi': 'A_OUT_SPI', 'child_sa.inbound_spi': 'A_IN_SPI', 'ip_proto': 'A_IP_PROTO',
+              'ipsec_proto': 'A_IPSEC_PROTO', 'child_sa.mode': 'A_MODE', 'ike_sa.my_addr': 'A_MY_ADDR',
+              'ike_sa.peer_addr': 'A_PEER_ADDR', 'encr_alg': 'A_ENCR_ALG', 'integ_alg': 'A_INTEG_ALG',
+              'sk_ei': 'A_SK_EI', 'sk_er': 'A_SK_ER', 'sk_ai': 'A_SK_AI', 'sk_ar': 'A_SK_AR', 'lifetime': 'A_LIFETIME'}
+    for which, call in zip(('out_call', 'in_call'), calls):
+        vals = [ast.unparse(a) for a in call.args]
+        if len(vals) != len(params) or call.keywords or any(v not in argsym for v in vals):
+            xsrc.fail(call, f'create_child_sa: create_sa call changed: {vals}')
+        out[which] = list(zip(params, [argsym[v] for v in vals]))
+    out['create_sa_params'] = params
+    # IKE key derivation arguments on both roles
+    want_r = ('self.generate_ike_sa_key_material(ike_proposal=self.chosen_proposal, nonce_i=payload_nonce.nonce, '
+              'nonce_r=response_payload_nonce.nonce, spi_i=self.peer_spi, spi_r=self.my_spi, '
+              'shared_secret=dh.shared_secret, old_sk_d=old_sk_d)')
+    want_i = ('self.generate_ike_sa_key_material(ike_proposal=self.chosen_proposal, nonce_i=nonce, '
+              'nonce_r=payload_nonce.nonce, spi_i=self.my_spi, spi_r=self.peer_spi, '
+              'shared_secret=self.dh.shared_secret, old_sk_d=old_sk_d)')
+    if want_r not in ast.unparse(src.func('IkeSa._process_ike_sa_negotiation_request')):
+        raise TranslateError('ikesa.py: responder key derivation arguments changed')
+    if want_i not in ast.unparse(src.func('IkeSa.process_ike_sa_negotiation_response')):
+        raise TranslateError('ikesa.py: initiator key derivation arguments changed')
+    t = ast.unparse(src.func('IkeSa.generate_ike_sa_key_material'))
+    for frag in ('crypto_i = Crypto(cipher, ike_sa_keyring.sk_ei, integ, ike_sa_keyring.sk_ai, prf, ike_sa_keyring.sk_pi)',
+                 'crypto_r = Crypto(cipher, ike_sa_keyring.sk_er, integ, ike_sa_keyring.sk_ar, prf, ike_sa_keyring.sk_pr)',
+                 'self.my_crypto = crypto_i if self.is_initiator else crypto_r',
+                 'self.peer_crypto = crypto_r if self.is_initiator else crypto_i'):
+        if frag not in t:
+            raise TranslateError(f'ikesa.py: generate_ike_sa_key_material: {frag} changed')
+    return out
+
+
 def translate(ctx=None):
     src = pyast.Src(os.path.join(core.REPO, 'ikesa.py'))
     msrc = pyast.Src(os.path.join(core.REPO, 'message.py'))
@@ -671,6 +787,7 @@ def translate(ctx=None):
     loopf = loop_facts(csrc)
     cook = cookie_facts(src, msrc)
     auth = auth_facts(src, msrc)
+    mir = mirror_facts(src, pyast.Src(os.path.join(core.REPO, 'xfrm.py')))
     adm = admission_facts(src)
     ctl = controller_facts(csrc, src)
     exd = dict(exch)
@@ -734,6 +851,26 @@ def translate(ctx=None):
     L.append('Definition KEYPAD : list N := [' + '; '.join(str(b) for b in auth['keypad']) + ']%N.')
     L.append(f'Definition AUTH_PSK : Z := {auth["PSK"]}.')
     L.append(f'Definition AUTH_RSA : Z := {auth["RSA"]}.')
+    L.append('\n(* C01: ChildSa construction on both roles, create_child_sa wiring *)')
+    L.append('Inductive cfield := F_inbound_spi | F_outbound_spi | F_proposal | F_tsi | F_tsr | F_mode.')
+    L.append('Inductive rsource := S_REQ_SPI | S_FRESH | S_CHOSEN_PROP | S_CHOSEN_TSR | S_CHOSEN_TSI | S_REQ_MODE'
+             ' | S_CONF_LIFE | S_CONF_PROP.')
+    L.append('Inductive isource := S_RES_SPI | S_RES_PROP | S_RES_TSI | S_RES_TSR.')
+    L.append('Definition resp_child : list (cfield * rsource) := ['
+             + '; '.join(f'(F_{f}, {v})' for f, v in mir['resp_child']) + '].')
+    L.append('Definition init_replace : list (cfield * isource) := ['
+             + '; '.join(f'(F_{f}, {v})' for f, v in mir['init_replace']) + '].')
+    L.append('Inductive sa_arg := A_SRC_SEL | A_DST_SEL | A_SRC_PORT | A_DST_PORT | A_OUT_SPI | A_IN_SPI | A_IP_PROTO'
+             ' | A_IPSEC_PROTO | A_MODE | A_MY_ADDR | A_PEER_ADDR | A_ENCR_ALG | A_INTEG_ALG | A_SK_EI | A_SK_ER | A_SK_AI'
+             ' | A_SK_AR | A_LIFETIME.')
+    L.append('Inductive sa_param := ' + ' | '.join('P_' + p for p in mir['create_sa_params']) + '.')
+    for which in ('out_call', 'in_call'):
+        L.append(f'Definition {which} : list (sa_param * sa_arg) := ['
+                 + '; '.join(f'(P_{p}, {a})' for p, a in mir[which]) + '].')
+    L.append('Inductive keyname := K_sk_ei | K_sk_er | K_sk_ai | K_sk_ar.')
+    L.append('(* which keyring entry is bound to the local names (sk_ei, sk_er, sk_ai, sk_ar) on each role *)')
+    L.append('Definition keys_init : list keyname := [' + '; '.join('K_' + k for k in mir['keys_init']) + '].')
+    L.append('Definition keys_resp : list keyname := [' + '; '.join('K_' + k for k in mir['keys_resp']) + '].')
     L.append('\n(* admission: (function, kind, states) *)')
     L.append('Inductive adm_kind := Admit | Assert.')
     L.append('Definition admissions : list (nat * adm_kind * list Z) := [')
